@@ -240,6 +240,9 @@ impl MemcacheBinaryCodec {
             return Err(Error::new(ErrorKind::Other, "Header body length too large"));
         }
 
+        // a request owns exactly body_length bytes: hand only those to the per-opcode parser
+        let mut body = src.split_to(self.header.body_length as usize);
+        let src = &mut body;
         let result = match FromPrimitive::from_u8(self.header.opcode) {
             Some(binary::Command::Get)
             | Some(binary::Command::GetQuiet)
